@@ -1302,7 +1302,7 @@ def kwsites_check(fns):
                     undecided.append('%s: begin_keywords is called with something other than one string literal' % f.name)
                     continue
                 lit = a[1][1:-1]
-                props = ['C13'] + (['C05'] if f.name == 'text_macro_usage' else []) + (['C11'] if f.name == 'text_macro_definition' else [])
+                props = ['C13', 'C17', 'C07'] + (['C05'] if f.name == 'text_macro_usage' else []) + (['C11'] if f.name == 'text_macro_definition' else [])      # C17/C07: the end_keywords() that follows pops an entry this production did not push
                 if lit not in known:
                     failures.append(fail(f.name, 'C13.kw.%s-opens-a-region-under-a-known-name' % f.name,
                                          'begin_keywords("%s"): no such keyword set, the call pushes nothing' % lit, props, f))
